@@ -143,6 +143,20 @@ Definition glue_C17 (k : string) (a o : list value) : option verdict :=
           else None
         else None
     | _, _ => None end
+  else if is k "svc.filters" then
+    (* args: kinds of the NTP reference clocks (0 IP, 1 SCION), number of SCION peers, further settings
+       (ignored: daemon, auth mode); observed: createClocks completed, clients per clock, per client whether
+       the filter is a *client.NtimedFilter, per client the identity of its filter *)
+    match a, o with
+    | VL kinds :: VZ npeer :: _, [VZ ok; VL counts; VL types; VL ids] =>
+        match getZs kinds, getZs counts, getZs types, getZs ids with
+        | Some kinds, Some counts, Some types, Some ids =>
+            let np := Z.to_nat npeer in
+            let '(ec, et, ei) := svc_expected kinds np in
+            Some (functional [VZ 1; VL (map VZ ec); VL (map VZ et); VL (map VZ ei)] o
+                    (C17_filters_ok kinds np (negb (ok =? 0)) counts types ids))
+        | _, _, _, _ => None end
+    | _, _ => None end
   else if is k "ntimed.epochsrc" then
     (* the syntactic tie between SystemClock.Step and a new epoch: six entries, all must be 1 *)
     match a, o with
